@@ -409,10 +409,126 @@ func TIFFShape(r *core.Rng) ([]byte, string) {
 	return out, fmt.Sprintf("tiffshape big=%v variant=%s len=%d", big, variant, len(out))
 }
 
+// TIFFPendingShape builds one directory with n out-of-line values whose offsets ascend, except
+// that a few late entries point below everything still pending at that moment (legal: value
+// placement is free). n is drawn around the reader's pending-tag capacity (84) and the entry cap.
+func TIFFPendingShape(r *core.Rng) ([]byte, string) {
+	big := r.Bool()
+	var o binary.ByteOrder = binary.LittleEndian
+	hdr := []byte("II*\x00")
+	if big {
+		o, hdr = binary.BigEndian, []byte("MM\x00*")
+	}
+	n := r.Pick(60, 83, 84, 85, 86, 87, 100, 127, 128)
+	low := r.Pick(0, 1, 1, 2, 3)
+	vlen := r.Pick(5, 8, 12)
+	out := make([]byte, 8, 8+2+12*n+4+(n+low)*vlen+64)
+	copy(out, hdr)
+	o.PutUint32(out[4:], 8)
+	cnt := make([]byte, 2)
+	o.PutUint16(cnt, uint16(n))
+	out = append(out, cnt...)
+	entries := len(out)
+	out = append(out, make([]byte, 12*n+4)...)
+	lowArea := len(out) // `low` values live here, before all the others
+	out = append(out, r.Bytes(low*vlen)...)
+	lowIdx := map[int]int{}
+	for k := 0; k < low; k++ {
+		lowIdx[n-1-r.Intn(n/3+1)] = k // late entries
+	}
+	tags := []int{0x010e, 0x0131, 0x013b, 0x8298, 0x010f, 0x0110}
+	for i := 0; i < n; i++ {
+		e := out[entries+12*i:]
+		tg := 0x7000 + i
+		if r.Chance(1, 8) {
+			tg = tags[r.Intn(len(tags))]
+		}
+		o.PutUint16(e[0:], uint16(tg))
+		o.PutUint16(e[2:], 2) // ASCII
+		o.PutUint32(e[4:], uint32(vlen))
+		if k, ok := lowIdx[i]; ok {
+			o.PutUint32(e[8:], uint32(lowArea+k*vlen))
+			continue
+		}
+		o.PutUint32(e[8:], uint32(len(out)))
+		v := make([]byte, vlen)
+		for j := range v {
+			v[j] = byte('a' + (i+j)%26)
+		}
+		v[vlen-1] = 0
+		out = append(out, v...)
+	}
+	return out, fmt.Sprintf("tiffpending big=%v n=%d low=%d len=%d", big, n, len(lowIdx), len(out))
+}
+
+// PNGBackShape builds a chunk stream in which one chunk's length field, read as a signed
+// 32-bit number, points back to the start of an earlier chunk header (or its own), and other
+// extreme lengths.
+func PNGBackShape(r *core.Rng) ([]byte, string) {
+	out := []byte("\x89PNG\r\n\x1a\n")
+	var starts []int
+	put := func(typ string, data []byte) {
+		starts = append(starts, len(out))
+		out = append(out, be32(len(data))...)
+		out = append(out, typ...)
+		out = append(out, data...)
+		out = append(out, r.Bytes(4)...) // CRC (not checked by the scanner)
+	}
+	put("IHDR", r.Bytes(13))
+	for k := r.Range(0, 3); k > 0; k-- {
+		put(r.PickStr("gAMA", "tEXt", "pHYs", "iTXt"), r.Bytes(r.Range(0, 40)))
+	}
+	starts = append(starts, len(out)) // the attacking chunk's own header
+	target := starts[r.Intn(len(starts))]
+	after := len(out) + 8
+	var length uint32
+	switch r.Intn(4) {
+	case 0, 1: // after + int32(length) + 4 == target
+		length = uint32(int32(target - after - 4))
+	case 2:
+		length = uint32(int32(target - after)) // forgets the CRC
+	default:
+		length = uint32(r.Pick(0x7fffffff, 0x80000000, 0xfffffffc, 0xfffffff8, 0xffffffff))
+	}
+	out = append(out, be32(int(length))...)
+	out = append(out, r.PickStr("tEXt", "eXIf", "IDAT", "zTXt")...)
+	out = append(out, r.Bytes(r.Range(0, 64))...)
+	if r.Bool() {
+		put("eXIf", append([]byte("II*\x00\x08\x00\x00\x00\x00\x00"), r.Bytes(8)...))
+		put("IEND", nil)
+	}
+	return out, fmt.Sprintf("pngback target=%d length=%#x len=%d", target, length, len(out))
+}
+
 // Shape draws one grammar-based hostile input of any family.
 func Shape(r *core.Rng) ([]byte, string) {
-	if r.Chance(2, 3) {
-		return BMFFShape(r)
+	switch r.Intn(12) {
+	case 0, 1, 2:
+		return TIFFShape(r)
+	case 3:
+		return TIFFPendingShape(r)
+	case 4:
+		return PNGBackShape(r)
+	case 5:
+		return AlignedCR3Shape(r)
 	}
-	return TIFFShape(r)
+	return BMFFShape(r)
+}
+
+// AlignedCR3Shape is a well-formed generated CR3 (64-bit box headers allowed) in which the header
+// of a nested box sits 0..40 bytes before a 4 KiB boundary of the stream.
+func AlignedCR3Shape(r *core.Rng) ([]byte, string) {
+	mk := func() []byte {
+		t, _, _ := SynthPayload(r, r.Bool(), 2)
+		return t
+	}
+	p := CR3Parts{CMT1: mk(), CMT2: mk(), XMP: []byte("<x:xmpmeta xmlns:x='adobe:ns:meta/'><rdf:RDF></rdf:RDF></x:xmpmeta>"), Align: 1 + r.Intn(41)}
+	if r.Bool() {
+		p.CMT4 = mk()
+	}
+	if r.Bool() {
+		p.Preview = append([]byte{0xFF, 0xD8}, r.Bytes(r.Range(0, 3000))...)
+	}
+	c := BuildCR3(r, p, r.Pick(0, 1, 2), true)
+	return c.Bytes, fmt.Sprintf("alignedcr3 align=%d len=%d", p.Align-1, len(c.Bytes))
 }
